@@ -1,14 +1,35 @@
 #!/bin/sh
-# Point the quick check of each property at each of its sensitivity mutations (applied to /repo, then undone).
-# Output: /verif/sensitivity/CHECKS.tsv
+# Sensitivity run: point the quick check of each property at each of its hand-written mutations
+# (sensitivity/<ID>/*.diff).  Works on scratch copies only — a git worktree of /repo and a copy of
+# /verif whose simulator depends on that worktree — so /repo and /verif/sim stay usable meanwhile.
+# usage: tools/senscheck.sh [filter]      output: sensitivity/CHECKS.tsv (full run) or stdout (filtered)
 here=$(cd "$(dirname "$0")/.." && pwd)
-out=$here/sensitivity/CHECKS.tsv
 sel=${1:-}
-: > "$out.tmp"
+base=${SENS_DIR:-/tmp/sens}
+mkdir -p "$base"
+if [ ! -d "$base/repo" ]; then git -C /repo worktree add --detach "$base/repo" HEAD -q || exit 2; fi
+git -C "$base/repo" checkout -q --detach "$(git -C /repo rev-parse HEAD)" && git -C "$base/repo" checkout -q -- .
+mkdir -p "$base/verif"
+rsync -a --delete --exclude target --exclude .git --exclude replays --exclude evidence "$here/" "$base/verif/"
+sed -i "s|path = \"/repo\"|path = \"$base/repo\"|" "$base/verif/sim/Cargo.toml"
+[ -d "$base/verif/sim/target" ] || cp -a "$here/sim/target" "$base/verif/sim/target" 2>/dev/null
+out=$here/sensitivity/CHECKS.tsv
+tmp=$base/CHECKS.tmp
+: > "$tmp"
 for d in $(ls "$here"/sensitivity/*/*.diff | sort); do
     id=$(basename "$(dirname "$d")")
-    case "$d" in *"$sel"*) ;; *) continue ;; esac
-    "$here/tools/seedrun.sh" "$d" "$id" | tee -a "$out.tmp"
+    name=$id/$(basename "$d" .diff)
+    case "$name" in *"$sel"*) ;; *) continue ;; esac
+    git -C "$base/repo" checkout -q -- .
+    git -C "$base/repo" apply "$d" || { echo "$name	patch-failed" | tee -a "$tmp"; continue; }
+    start=$(date +%s)
+    res=$(FUSIM_ROOT="$base/verif" "$base/verif/check" "$id" "${TIER:-quick}" 2>&1)
+    st=$?
+    end=$(date +%s)
+    classes=$(echo "$res" | grep -a '^violation class=' | sed 's/^violation class=\([^ ]*\).*/\1/' | tr '\n' ' ')
+    case $st in 1) verdict=caught ;; 0) verdict=MISSED ;; *) verdict="harness-error($st)" ;; esac
+    echo "$name	$verdict	$((end-start))s	$classes" | tee -a "$tmp"
+    [ $st -eq 2 ] && echo "$res" | tail -5
 done
-if [ -z "$sel" ]; then mv "$out.tmp" "$out"; else cat "$out.tmp" >> "$out"; rm "$out.tmp"; fi
-"$here/check" --build
+git -C "$base/repo" checkout -q -- .
+if [ -z "$sel" ]; then cp "$tmp" "$out"; fi
